@@ -222,7 +222,7 @@ class ProcessingItemBase:
                 refids = expr.resolve(conditions)
                 if len(refids) < len(conditions):
                     raise SigmaPipelineConditionError(
-                        f"{name} contains unreferenced condition items: {', '.join(set(conditions.keys()) - refids)}",
+                        f"{name} contains unreferenced condition items: {', '.join(sorted(set(conditions.keys()) - refids))}",
                         expr.expression,
                         expr.location,
                     )
